@@ -18,7 +18,7 @@ and emits one row (implementor, trait, method, class) per (impl block, trait met
 
   Fwd          exactly one call of the same method on the single inner value with the same arguments in order
   FwdOpt d     Option: Some -> forward, None -> literal d
-  FwdAll c     Vec: for-loop / all / the two hand-written folds
+  FwdAll c     Vec: for-loop / all / the hand-written folds (interest: never if any, always iff all, else sometimes; hint: max)
   FwdLock d    reload: the same single call through try_lock!(self.inner.read()/write())
   Missing      the impl does not override the method (the trait default applies; defaults are extracted too)
   Seq2/Gate/PickInterest/PickHint/NewSpan/CloneSpan/TryClose/SelfCall/EventGate/Downcast   the shapes of Layered / Dispatch
@@ -43,7 +43,9 @@ TRAITS = {"Collect": "TCollect", "Subscribe": "TSubscribe", "Filter": "TFilter"}
 
 def clean(body):
     """Normalise a fn body: drop attributes, collapse whitespace, glue method chains (`x .m()` -> `x.m()`)."""
-    b = re.sub(r"#!?\[[^\]]*\]", " ", body)
+    # verification hooks are add-only statements under `#[cfg(tracing_verif)]` (absent from a normal build)
+    b = re.sub(r"#\[cfg\((?:all\()?tracing_verif\b[^\]]*\]\s*[^;{}]*;", " ", body)
+    b = re.sub(r"#!?\[[^\]]*\]", " ", b)
     b = norm(b)
     b = re.sub(r"\s+\.", ".", b)
     b = re.sub(r"\(\s+", "(", b)
@@ -122,6 +124,9 @@ T_VEC_RC = ("let mut interest = Interest::never(); for s in self { let new_inter
             "if (interest.is_sometimes() && new_interest.is_always()) || (interest.is_never() && !new_interest.is_never()) "
             "{ interest = new_interest; } } interest")
 T_VEC_RC_FIXED = "if self.is_empty() { return Interest::always(); } " + T_VEC_RC
+T_VEC_RC_ALL = ("let mut any_never = false; let mut all_always = true; for s in self { let interest = s.register_callsite(metadata); "
+                "any_never |= interest.is_never(); all_always &= interest.is_always(); } "
+                "if any_never { Interest::never() } else if all_always { Interest::always() } else { Interest::sometimes() }")
 T_VEC_HINT = ("let mut max_level = LevelFilter::OFF; for s in self { let hint = s.max_level_hint()?; "
               "max_level = core::cmp::max(hint, max_level); } Some(max_level)")
 T_NEW_SPAN = "let id = self.inner.new_span(span); self.subscriber.on_new_span(span, &id, self.ctx()); id"
@@ -218,6 +223,8 @@ def classify(name, sig, body, ctx_extra=()):
         return "(FwdAll CInterestHighest)"
     if b == T_VEC_RC_FIXED and name == "register_callsite":
         return "(FwdAll CInterestHighestOrAlways)"
+    if b == T_VEC_RC_ALL and name == "register_callsite":
+        return "(FwdAll CInterestAll)"
     if b == T_VEC_HINT and name == "max_level_hint":
         return "(FwdAll CHintMax)"
     # --- Layered
